@@ -125,6 +125,12 @@ MATCH_K = [K('langid_match', 'match_language'), K('langid_match', 'match_fields_
 ORD_K = [K('langid_leaf', h) for h in ['leaf_variant_ord_is_lex', 'leaf_language_ord_is_lex', 'leaf_script_ord_is_lex', 'leaf_region_ord_is_lex', 'leaf_subtag_eq_str']] + \
     [K('locale_leaf', h) for h in ['tinystr8_eq_ord_is_text', 'tinystr4_eq_ord_is_text']]
 
+ORD_LID_K = [K('langid_ord', 'lid_ord_fields_no_variants'), K('langid_ord', 'subtag_eq_implies_same_hash'),
+             K('langid_ord', 'lid_eq_implies_same_hash_no_variants'),
+             K('langid_ord', 'lid_eq_hash_variants_le1', bounded='variant lists of length <= 1 per side, every representation (None, Some([]), Some([a]))', tier='thorough', timeout=1800, cost='4.5 min'),
+             K('langid_ord', 'lid_ord_variants_only', bounded='variant lists of length <= 2 per side', tier='thorough', timeout=3600, cost='8 min'),
+             K('langid_ord', 'lid_eq_implies_same_hash_variants', bounded='variant lists of length <= 2 per side', tier='thorough', timeout=3600, cost='8.5 min')]
+
 PROPS.update({
     'C10': {
         'kani': [K('langid_leaf', h) for h in LEAF_LID] + LOCALE_LEAF + ORD_K,
@@ -163,10 +169,12 @@ PROPS.update({
                        'so from_parts(into_parts(x)) == x on wf values and any order / duplication of the variants gives the same value',
     },
     'C12': {
-        'kani': ORD_K,
+        'kani': ORD_K + ORD_LID_K,
         'verus': [V('langid', r'::LanguageIdentifier::eq$'), V('langid', r'::(Language|Script|Region|Variant)::lemma_view_injective$')],
         'explanation': 'derived ==/cmp of the four subtag types and of TinyAsciiStr equal equality / lexicographic order of the stored text (Kani, all raw values); '
-                       'LanguageIdentifier == &str is verified (verbatim body) to be true iff the string equals the canonical serialisation of the view',
+                       'the derived Ord / PartialOrd / PartialEq of LanguageIdentifier on the compiled code equal the field-by-field comparison language, script, region, '
+                       'variants with an absent subtag first, are antisymmetric, == iff Equal, and equal values feed any Hasher the same bytes (Kani langid_ord, all raw values; '
+                       'variant lists bounded); LanguageIdentifier == &str is verified (verbatim body) to be true iff the string equals the canonical serialisation of the view',
     },
 })
 
@@ -251,13 +259,15 @@ PROPS.update({
 PROPS.update({
     'C19': {
         'kani': [K('langid_serde', h) for h in ['serialize_is_to_string', 'deserialize_str_is_parse', 'deserialize_non_string_is_err', 'from_str_is_from_bytes']] +
+                [K('langid_serde', 'deserialize_long_str_is_parse', timeout=1200, cost='105 s')] +
                 [K('langid_leaf', h) for h in LEAF_LID],
         'verus': [V('bridge', BRIDGE_LID)] + LID_PARSER + LID_DISPLAY,
         'standin': ['lid'],
         'trusted': ['the serde glue is verified against its callees\' CONTRACTS: Display::fmt of LanguageIdentifier (kani::stub by an oracle writing an arbitrary fixed text <= 8 bytes; '
                     'its real contract is C04\'s) and parse_language_identifier_from_iter (kani::stub by an arbitrary deterministic function of (first subtag, allow_extension); '
                     'its real contract is C02\'s); mock Serializer / Deserializer / Error types stand for serde_json (JSON escaping is serde_json\'s)',
-                    'input strings of the deserialisation harness: every ASCII string of length <= 4 (the glue does not inspect the bytes; the parser oracle does not either)'],
+                    'input strings of the deserialisation harnesses: every ASCII string of length <= 4, and one string of every length <= 64 (the glue does not inspect the '
+                    'bytes; the parser oracle does not either)'],
         'explanation': 'serialize calls serialize_str exactly once with exactly the text Display::fmt writes (= to_string(), the canonical string by C04) and no other Serializer '
                        'method; deserialize of a string returns Ok(v) iff the parser does on that very string with allow_extension = false, with the same v, else Err; every '
                        'non-string kind (bool, u64, i64, f64, unit, none, char, bytes) is an error and no panic is reachable; with the verified parser / Display contracts this '
@@ -351,7 +361,7 @@ B_MATCH = B('matches', 'LanguageIdentifier::matches and Locale::matches on the p
                      'pairs x extension shapes (none, -u-ca-buddhist, -x-priv) per side, against the wildcard formula')
 PROPS['C11']['bounded'] = [B_MATCH]
 B_SERDE = B('serde', 'through serde_json (text with escapes and serde_json::Value): every string of the language-identifier token space (7 heads x <= 2 subtags of the '
-                     'boundary-class alphabet) deserialises iff it parses, with an equal value; every parsed value serialises to its canonical string and back; 8 non-string JSON values are errors')
+                     'boundary-class alphabet) and 144 long identifiers (up to 12 variants / 120 bytes) deserialises iff it parses, with an equal value; every parsed value serialises to its canonical string and back; 8 non-string JSON values are errors')
 PROPS['C19']['bounded'] = [B_SERDE]
 B_LIKELY = B('likely', 'LanguageIdentifier::maximize / minimize (the wrappers, real tables) on 16 languages x 10 scripts x 11 regions x {no variant, one variant}: returned '
                       'flag == value changed, variants untouched, given subtags kept, all three filled, idempotence, minimize maximizes back (laws that need no reference data)')
@@ -372,6 +382,13 @@ PROPS['C13']['standin'] = ['lid', 'locale']
 PROPS['C13']['bounded'] = [B_SUPER]
 PROPS['C12']['verus'] = PROPS['C12']['verus'] + LOC_RT
 PROPS['C12']['verus'] = PROPS['C12']['verus'] + [V('langid', r'::vspec::lemma_(lid_ser_injective|lid_parse_ser|lid_roundtrip|strict_sorted_same_set|lid_expected_unique)$')]
+
+B_FEAT = B('features', 'differential run of one observation program (featdiff/: no feature-only API) built against the real crates with no optional feature, likelysubtags, '
+                       'serde and both: ~75 000 observations must be identical - parse / from_str / canonicalize of both crates on 12 languages x 5 scripts x 7 regions x 3 variant '
+                       'lists x 5 extension shapes (+ upper-case / underscore spellings) and on 3 700 raw strings of a boundary-class alphabet; matches (4 flag pairs), cmp, ==, hash '
+                       'equality and == &str on all pairs of a 250-identifier and a 190-locale pool; a 40-step mutator / getter / conversion script on 900 start values; '
+                       'character_direction only for identifiers that carry a script')
+PROPS['C20']['bounded'] = [B_FEAT]
 
 NOT_APPLICABLE = {
     'C16': 'compile-time macro expansion (proc_macro::TokenStream, compile success/failure) is outside any function contract; see DESIGN.md',
